@@ -157,7 +157,12 @@ def main():
     sys.path.insert(0, os.path.dirname(os.path.dirname(os.path.abspath(__file__))))
 
     import io
+    if job.get("import_cwd"):
+        # a long-lived interpreter: the package was imported while the working directory was somewhere else
+        os.chdir(job["import_cwd"])
     import ariadne_codegen.main as acm          # noqa: E402  (imports black/isort/... once)
+    if job.get("import_cwd"):
+        os.chdir(job["cwd"])
     if clock is not None:
         import ariadne_codegen.client_generators.comments as comments
         comments.datetime = FakeDateTime
